@@ -36,6 +36,9 @@ CLAIMED = {
  "C08": ("exploration", "exhaustive enumeration of response code x key x ASC/ASCQ + Hypothesis buffers (truncation, descriptors, noise); positions per SPC and T10 texts from an independent list", "4 C08",
          "Quick enumerates all 65536 ASC/ASCQ pairs per response code and all format x key combinations on a spread sample; thorough enumerates the full 4x2x16x65536 product; generated buffers add truncation, noise and descriptor lists. Construction, str, repr and print must not raise; key/ASC/ASCQ must be the bytes at the SPC positions; ~130 assigned codes are compared with independently transcribed T10 texts.",
          "stdspec/sense.py; other table entries only for self-consistency; vendor-specific ranges accept any text"),
+ "C09": ("exploration", "isolation metamorphic relation over Hypothesis histories on a pool of live commands and over harness-owned thread schedules (settrace line-event preemption; enumerated single/double preemptions for fixed program pairs); independent big-integer codec and the standards model as references", "4 C09",
+         "Generated histories (construct / decode via class and instance / encode / rebuild / drop+gc / repeated marshalling with the same argument objects / facade defaults after a call with lists) must observe what the same operation gives alone; 2-3 threads running generated programs on their own commands are executed by a deterministic scheduler that preempts at generated pyscsi line events, and all single preemptions of six (thorough: twelve, plus double preemptions) fixed program pairs are enumerated. References: a freshly built equal command, an independent decoder of the class's own layout (immune to caches inside the library) and the C01 standards oracle.",
+         "CPython, line-granularity preemption inside pyscsi code, <= 3 threads, <= 4 preemptions (random) / 2 (enumerated); threads sharing one command object are outside the statement"),
  "C10": ("exploration", "Hypothesis layouts/values/orders vs big-integer reference codec + exhaustive narrow fields", "4 C10",
          "Generated-input search over layouts (any width/alignment/blob/order/prior content) against a big-integer reference codec, plus exhaustive enumeration of narrow fields; exploration, not proof: the wide-field space is sampled with boundary bias.",
          "reference codec in props/c10_codec.py; XOR contract (field bits zero before encoding)"),
